@@ -225,7 +225,7 @@ def campaign_c03(seed, tier):
 def campaign_c02(seed, tier):
     rng = random.Random(seed)
     scs = []
-    n = 18 if tier == "quick" else 300
+    n = 18 if tier == "quick" else 2000
     for i in range(n):
         mtu = MTUS[i % 3] if i < 9 else any_mtu(rng)
         kind = i % 3
@@ -534,7 +534,7 @@ def campaign_c08(seed, tier):
     for mtu in MTUS:
         cap = mtu - 34
         sizes = [0, 1, cap - 1, cap, cap + 1, 2 * cap - 1, 2 * cap, 2 * cap + 1, 16383, 16384, 32768]
-        sizes += [rng.randrange(0, 32769) for _ in range(2 if tier == "quick" else 60)]
+        sizes += [rng.randrange(0, 32769) for _ in range(2 if tier == "quick" else 400)]
         if tier == "thorough":
             sizes += [j * cap + d for j in range(1, 5) for d in (-2, -1, 0, 1, 2)]
         for i, sz in enumerate(sizes):
@@ -606,7 +606,7 @@ def sc_c09(name, seed, mtu, wild, nh, wifi=0):
 def campaign_c09(seed, tier):
     rng = random.Random(seed)
     scs = []
-    for i in range(32 if tier == "quick" else 600):
+    for i in range(32 if tier == "quick" else 3000):
         scs.append(sc_c09("c09-%d" % i, rng.randrange(1 << 30), MTUS[i % 3], [0.0, 0.2, 0.5][i % 3], rng.choice([0, 1, 5, 30, 80]), wifi=i % 2))
     return scs
 
@@ -740,7 +740,7 @@ def sc_c10(name, seed, mtu):
 
 def campaign_c10(seed, tier):
     rng = random.Random(seed)
-    return [sc_c10("c10-%d" % i, rng.randrange(1 << 30), MTUS[i % 3]) for i in range(48 if tier == "quick" else 1500)]
+    return [sc_c10("c10-%d" % i, rng.randrange(1 << 30), MTUS[i % 3]) for i in range(48 if tier == "quick" else 6000)]
 
 
 # --------------------------------------------------------------------------- C18
